@@ -57,6 +57,15 @@ CHECKS = {
         "Trusts the harness's value functions (vp/gen_lex.py); domain limited to years 1000-9999 and quote-free geography text.",
         "DESIGN.md §6 C06",
     ),
+    "C14": (
+        "Hypothesis grammar generation of trees x alias maps drawn from each tree; reference-model (independent substitution) oracle plus identity, no-mutation and inverse laws",
+        "Alias maps are drawn from the field references, function names, parameter names and lambda variables of each "
+        "generated tree, so they hit; the library's rewritten AST is decoded and compared with the harness's own "
+        "substitution written from the property sentence, the input is snapshotted, and a fresh-name bijection is "
+        "applied and inverted.",
+        "Trusts vp/treeref.substitute; alias keys that are paths rooted at a lambda variable are excluded (statement silent).",
+        "DESIGN.md §6 C14",
+    ),
 }
 
 ALL = ["C%02d" % i for i in range(1, 21)]
